@@ -1071,7 +1071,12 @@ def store8(ctx) -> List[Ob]:
         if z.kind == "for" and ".graph" in A.unparse(z.stmt.iter):
             for k in A.walk_no_nested(ast.Module(z.stmt.body, [])):
                 if isinstance(k, ast.Call) and (A.dotted(k.func) or "") in ("object.__setattr__", "setattr") and len(k.args) == 3 and isinstance(k.args[1], ast.Constant) and k.args[1].value == "parent_region" and rvar and A.unparse(k.args[2]) == rvar:
-                    rep = z
+                    # applied to exactly the regions among the members: under a positive RegionBlock test
+                    tgt_ = A.unparse(k.args[0])
+                    guards_ = [a for a in A.ancestors(k) if isinstance(a, ast.If) and any(x is z.stmt for x in A.ancestors(a))]
+                    pos = [g for g in guards_ if any(c is k or any(a2 is c for a2 in A.ancestors(k)) for c in g.body) and isinstance(g.test, ast.Call) and A.unparse(g.test) == f"isinstance({tgt_}, RegionBlock)"]
+                    if pos and len(guards_) == 1:
+                        rep = z
     if rep is not None and follows(lambda z: z is rep):
         out.append(ok("STORE-8", er.qualname, key, ctx.where(er, rep.stmt), "every RegionBlock inside the new sub-graph gets the new region as parent"))
     else:
